@@ -14,7 +14,7 @@ LEVEL_TEXT = ("Static structural proof of necessary conditions: (R5.1) each publ
               "element names, MediaWiki section markers, TSV row shapes/columns, escape pairs and the '-#' suffix "
               "agree between writer and reader; (R5.5) every attribute-emission loop consults the attribute filter. "
               "Equality after reload, cross-format agreement of contents and library/unmerged selection are NOT decided.")
-LEVEL_EXTRA = "Added after the seeded evaluation: (R5.4) also the escape context of each writer/reader pair; (R5.6) no stale per-entry state in the writers' traversal loops (two frozen exceptions); (R5.7) every TSV read of the loaders takes cells verbatim as text. (R5.8) the writers split a multi-valued attribute at the separator the readers join it with. (R5.9) a parameter is handed on to every repository callee that takes a parameter of the same name (11 frozen exceptions package-wide)."
+LEVEL_EXTRA = "Added after the seeded evaluation: (R5.4) also the escape context of each writer/reader pair; (R5.6) no stale per-entry state in the writers' traversal loops (two frozen exceptions); (R5.7) every TSV read of the loaders takes cells verbatim as text. (R5.8) the writers split a multi-valued attribute at the separator the readers join it with. (R5.9) a parameter is handed on to every repository callee that takes a parameter of the same name (11 frozen exceptions package-wide). (R5.10) in every reader add_unit() is called on the registered unit-class entry, never on the freshly parsed one; (R5.11) schema text is never cut with str.splitlines."
 
 SERIALIZERS = ["get_as_mediawiki_string", "get_as_xml_string", "get_as_dataframes",
                "save_as_mediawiki", "save_as_xml", "save_as_dataframes"]
@@ -476,3 +476,47 @@ def run(ctx):
     from sa.forward import check_forwarding
     nfw = check_forwarding(ctx, "R5.9", [f for f in prog.functions.values() if f.module.name.startswith(('hed.schema.schema_io',))], 'e.g. save_merged, the schema to merge into')
     ctx.floor("R5.9", "same-named parameter sites", nfw, 1)
+
+    # ---------------- R5.10: units are attached to the REGISTERED unit-class entry
+    ctx.rule("R5.10", "in every reader the receiver of add_unit() is the entry returned by the registration (or looked up in the schema), "
+                      "never the freshly parsed entry")
+    from sa.dataflow import ReachingDefs as _RD510
+    n510 = 0
+    for f in prog.functions.values():
+        if not f.module.name.startswith("hed.schema.schema_io."):
+            continue
+        rd510 = None
+        for c in walk_no_nested(f.node):
+            if not (isinstance(c, ast.Call) and isinstance(c.func, ast.Attribute) and c.func.attr == "add_unit"
+                    and isinstance(c.func.value, ast.Name)):
+                continue
+            n510 += 1
+            ctx.saw(f)
+            rd510 = rd510 or _RD510(f)
+            defs = rd510.at(c, c.func.value.id) or []
+            fresh = [d for d in defs if d.kind == "assign" and isinstance(d.value, ast.Call)
+                     and call_name(d.value) in ("_create_entry", "_parse_node", "_create_tag_entry")]
+            ctx.check(not fresh, "R5.10", f.qualname, c, loc(f, c),
+                      "units are added to `%s` as it was parsed (%s), not to the entry that the registration returned: when the class "
+                      "already exists (a partnered library adding units to a standard unit class, loaded unmerged) the units land on a "
+                      "throw-away object and are missing after the load" % (c.func.value.id, norm(fresh[0].node)[:60] if fresh else ""),
+                      desc="%s: add_unit on the registered entry" % f.short)
+    ctx.floor("R5.10", "add_unit sites in the readers", n510, 3)
+
+    # ---------------- R5.11: schema text is cut into lines at "\n" only
+    ctx.rule("R5.11", "the schema readers/writers never cut text with str.splitlines (it also breaks at U+0085, U+2028, U+2029, \\x0b, \\x0c, "
+                      "which descriptions may contain and the writers do not escape)")
+    n511 = 0
+    for f in prog.functions.values():
+        if not f.module.name.startswith("hed.schema."):
+            continue
+        n511 += 1
+        for c in walk_no_nested(f.node):
+            if isinstance(c, ast.Call) and isinstance(c.func, ast.Attribute) and c.func.attr == "splitlines":
+                ctx.saw(f)
+                ctx.violation("R5.11", f.qualname, c, loc(f, c),
+                              "`%s` cuts the text at every Unicode line boundary, not only at the newline the writers put between rows: a "
+                              "description containing U+2028/U+0085 (allowed by the text class, written verbatim) is cut in two when the "
+                              "MediaWiki/TSV text is read back from a string, so the round trip fails" % norm(c)[:50])
+    ctx.ok("R5.11", "%d schema functions: no splitlines" % n511, "")
+    ctx.floor("R5.11", "schema functions inspected", n511, 100)
